@@ -95,6 +95,8 @@ type OptSpec struct {
 	NoTouch          bool     `json:"no_touch,omitempty"`
 	NoEvict          bool     `json:"no_evict,omitempty"`
 	SetInfo          []string `json:"set_info,omitempty"` // nil = library default; ["-"] = disabled; [name, ver]
+	ReplicaAZInfo    bool     `json:"replica_az_info,omitempty"` // EnableReplicaAZInfo
+	AZFromInfo       bool     `json:"az_from_info,omitempty"`
 }
 
 type SchedSpec struct {
@@ -242,6 +244,7 @@ func (e *env) clientOption() ClientOption {
 		opt.PipelineMultiplex = -1
 	}
 	opt.ClientName, opt.SelectDB, opt.ClientNoTouch, opt.ClientNoEvict = o.ClientName, o.SelectDB, o.NoTouch, o.NoEvict
+	opt.EnableReplicaAZInfo, opt.AZFromInfo = o.ReplicaAZInfo, o.AZFromInfo
 	if o.DynAuth {
 		user, pass := o.Username, o.Password
 		opt.AuthCredentialsFn = func(AuthCredentialsContext) (AuthCredentials, error) {
